@@ -7,6 +7,7 @@ import (
 	"bytes"
 	"fmt"
 	"math/big"
+	"sort"
 	"strconv"
 	"strings"
 
@@ -242,6 +243,14 @@ func genC15(c *Ctx) {
 				sideOracle(n)
 				c.mark("minsq" + s(n))
 			}
+		}
+	}
+	// MerkleMountainRangeSizes called directly: every total 1..70 against every power-of-two maximal tree size
+	// 1..128, so also totals BELOW the maximum (which the commitment code never passes: the width is <= n)
+	for total := 1; total <= 70; total++ {
+		for w := 1; w <= 128; w *= 2 {
+			c.add("mmr", s(total), s(w))
+			oracleC15MMR(c, total, w)
 		}
 	}
 	// BlobSharesUsedNonInteractiveDefaults
@@ -591,6 +600,44 @@ func genC13(c *Ctx) {
 			}
 		}
 	}
+	// prediction vs encoding inside a square: Deconstruct predicts every blob's share count from the size in
+	// the PFB plus the signer IT READS FROM THE BLOB'S OWN FIRST SHARE.  One blob transaction with a version 1
+	// blob, then a version 0 blob ending 0..19 bytes before the end of its last share (where 20 more bytes
+	// would need another share), then a third blob right behind it (no padding in between)
+	{
+		nss3 := blobNamespaces(r, 3)
+		sort.Slice(nss3, func(i, j int) bool { return bytes.Compare(nss3[i], nss3[j]) < 0 })
+		distinct := !bytes.Equal(nss3[0], nss3[1]) && !bytes.Equal(nss3[1], nss3[2])
+		for d := 0; distinct && d < 20; d++ {
+			for k := 1; k <= 3; k++ {
+				bl := []genBlob{
+					{ns: nss3[0], ver: 1, signer: randSigner(r), data: r.Bytes(1 + r.Intn(400))},
+					{ns: nss3[1], ver: 0, data: r.Bytes(478 + 482*(k-1) - d)},
+					{ns: nss3[2], ver: uint8(d % 2), data: r.Bytes(1 + r.Intn(400))},
+				}
+				if bl[2].ver == 1 {
+					bl[2].signer = randSigner(r)
+				}
+				sizes := []uint32{uint32(len(bl[0].data)), uint32(len(bl[1].data)), uint32(len(bl[2].data))}
+				raw := blobTxWithInner(mockPFB(r.Bytes(mockPFBExtraBytes), sizes), bl)
+				wit := map[string]any{"blob_versions": "1,0," + s(int(bl[2].ver)), "v0_data_len": len(bl[1].data), "bytes_free_in_last_share": d}
+				sq, err := square.Construct([][]byte{raw}, 16, 64)
+				if !c.check(err == nil, "Construct", "error", wit) {
+					continue
+				}
+				for j, g := range bl {
+					rg, err := square.BlobShareRange([][]byte{raw}, 0, j, 16, 64)
+					shs, _ := g.blob().ToShares()
+					c.check(err == nil && rg.End-rg.Start == len(shs) && len(shs) == share.SparseSharesNeeded(uint32(len(g.data)+len(g.signer))),
+						"BlobShareRange", "share count differs from the shares produced / SparseSharesNeeded", wit)
+				}
+				back, err := square.Deconstruct(sq, decodeMockPFB)
+				c.check(err == nil && len(back) == 1 && bytes.Equal(back[0], raw), "Deconstruct", "predicted blob share counts do not recover the transaction the square was built from", wit)
+				c.count("mixed_version_blob_tx_deconstruct")
+				c.goOnly++
+			}
+		}
+	}
 	// prediction vs encoding for compact sequences written with share version 0 and 1 (a compact share
 	// never carries a signer, whatever its version): every sequence length around one to three shares, so
 	// that every count of free bytes in the last share occurs
@@ -859,4 +906,5 @@ func genC18(c *Ctx) {
 			}
 		}
 	}
+	helperCases(c)
 }
